@@ -681,7 +681,7 @@ class Predicate(metaclass=abc.ABCMeta):
                     if k in left and k in right and hash(left[k]) != hash(right[k])
                     else left[k]
                     if k in left
-                    else right
+                    else right[k]
                     for k in left.keys() | right.keys()
                 )
             )
@@ -690,7 +690,27 @@ class Predicate(metaclass=abc.ABCMeta):
             return self.merge(self, other, And)
 
         def __or__(self, other: 'dsl.Predicate.Factors') -> 'dsl.Predicate.Factors':
-            return self.merge(self, other, Or)
+            # a disjunction constrains only the tables constrained by both of its sides
+            common = self.keys() & other.keys()
+            return self.merge(
+                self.__class__(*(self[k] for k in common)), self.__class__(*(other[k] for k in common)), Or
+            )
+
+        @classmethod
+        def primitive(cls, predicate: 'dsl.Predicate') -> 'dsl.Predicate.Factors':
+            """Factors of a predicate taken as a whole - the predicate itself if all of its elements
+            belong to one and the same table (otherwise it constrains no table on its own).
+
+            Args:
+                predicate: Predicate to be used as a factor.
+
+            Returns:
+                Factors instance with at most one item.
+            """
+            origins = {e.origin for e in Element.dissect(predicate)}
+            if len(origins) == 1 and isinstance(next(iter(origins)), framod.Table):
+                return cls(predicate)
+            return cls()
 
         def __getitem__(self, table: 'dsl.Table') -> 'dsl.Predicate':
             return self._items[table]
@@ -774,9 +794,9 @@ class Not(Logical, Prefix):
 
     symbol = 'NOT'
 
-    @property
+    @functools.cached_property
     def factors(self: 'Not') -> 'dsl.Predicate.Factors':
-        return self.operand.factors
+        return Predicate.Factors.primitive(self)  # the factors of the operand do not survive the negation
 
 
 class Comparison(Predicate):
@@ -830,7 +850,7 @@ class Comparison(Predicate):
 
     @functools.cached_property
     def factors(self: 'Comparison') -> 'dsl.Predicate.Factors':
-        return Predicate.Factors(self) if len({f.origin for f in Column.dissect(self)}) == 1 else Predicate.Factors()
+        return Predicate.Factors.primitive(self)
 
 
 class LessThan(Comparison, Infix):
